@@ -1651,10 +1651,10 @@ the receiver, nothing happens.
 func (r *stack) lock() {
 	if r.canMutex() {
 		if mutex, found := r.mutex(); found {
+			mutex.Lock()
 			sc, _ := r.config()
 			_now := now()
 			sc.ldr = &_now
-			mutex.Lock()
 		}
 	}
 }
@@ -1667,9 +1667,9 @@ the receiver, nothing happens.
 func (r *stack) unlock() {
 	if r.canMutex() {
 		if mutex, found := r.mutex(); found {
-			mutex.Unlock()
 			sc, _ := r.config()
 			sc.ldr = nil
+			mutex.Unlock()
 		}
 	}
 }
